@@ -3,7 +3,7 @@ C15 - a displayed value or expression means the same as the source expression.
   R15.1 operator tables (class -> symbol) agree with CPython's own parser, exhaustively over ast.operator/unaryop/boolop
   R15.2 container siblings: live-value and AST branches agree on prefix/suffix and on count-dependence of the suffix
   R15.3 parenthesis decision depends on the operand side (slice of the decision in _OperatorDelimiter)
-  R15.4 every expression class without a dedicated branch reaches the generic (astor) fallback
+  R15.4 every expression class without a dedicated branch reaches the generic (astor) fallback, whose text has no line break of astor's own
   R15.5 truncation is always marked
   R15.6 control characters keep their value (shared with C10)
   R15.7 string arguments of Literal[...] are not unstringed, whatever the qualifier of Literal
@@ -280,6 +280,19 @@ def run(repo: Repo, chk: Check, thorough: bool = False) -> None:
         all(enclosing_trys(c, gen.node) for c in calls_in(gen) if call_name(c) == 'to_source')
     chk.ob('R15.4', f'{COL}._colorize_ast_generic :: astor failure yields the unknown marker', ok,
            'astor.to_source inside try; failure appends UNKNOWN_REPR' if ok else 'astor.to_source is not guarded', gen.loc)
+    # astor.to_source() runs its result through `pretty_source`, which WRAPS lines longer than ~100 columns (library fact, astor.source_repr).  The
+    # colorizer treats a line break in the text as "the value continues on another line" and cuts the inline presentation (signatures) there - for a break
+    # the expression never had.  The fallback has to switch the wrapping off (pretty_source=...) or remove the breaks it gets back
+    for c in [c for c in calls_in(gen) if call_name(c) == 'to_source']:
+        own_pretty = any(k.arg == 'pretty_source' for k in c.keywords)
+        holder = {t.id for n in gen.walk() if isinstance(n, ast.Assign) and any(x is c for x in ast.walk(n.value)) for t in n.targets if isinstance(t, ast.Name)}
+        rejoined = any(isinstance(x, ast.Call) and call_name(x) in ('replace', 'splitlines', 'split', 'join') and any(isinstance(y, ast.Name) and y.id in holder for y in ast.walk(x))
+                       for x in gen.walk())
+        chk.ob('R15.4', f'{COL}._colorize_ast_generic :: the text of the fallback has no line break the expression did not have', own_pretty or rejoined,
+               'astor.to_source(..., pretty_source=...)' if own_pretty else 'the breaks are removed from the text' if rejoined else
+               'astor.to_source() is called with its default pretty printer, which wraps at ~100 columns: a long lambda / comparison / comprehension as a default value is cut '
+               'with `...` in the signature (`key=(lambda item, reverse, default_value, another_argument: (item.weight, it...)`) although no length limit applies there - the '
+               'same expression made of operators and calls is shown in full', repo.loc(gen.mod, c))
     if nbranches < 10:
         chk.error(f'R15.4: only {nbranches} branches seen in _colorize_ast (15 confirmed by hand)')
 
